@@ -795,6 +795,34 @@ spec fn con_violated(ts: Seq<TypeNode>, a: TyID, c: Constraint) -> bool {
         Constraint::Variable => ta is Void,
     }
 }
+/// the type constructor of a literal
+spec fn lit_head(e: Expression) -> Option<int> {
+    match e {
+        Expression::Nil(..) => Some(4int), Expression::Int(..) => Some(5int), Expression::Float(..) => Some(6int),
+        Expression::Bool(..) => Some(7int), Expression::Str(..) => Some(8int), _ => None,
+    }
+}
+/// the documented operator tables on literal operands (nil, int, float, bool, str)
+spec fn lit_op_ok(op: BinOp, x: int, y: int) -> bool {
+    match op {
+        BinOp::Add => x == y && (x == 5 || x == 6 || x == 8),
+        BinOp::Sub | BinOp::Mul => x == y && (x == 5 || x == 6),
+        BinOp::Div => (x == 5 || x == 6) && (y == 5 || y == 6),
+        BinOp::Equals | BinOp::NotEquals | BinOp::AssertEq => x == y,
+        BinOp::Greater | BinOp::Less => ((x == 5 || x == 6) && (y == 5 || y == 6)) || (x == 8 && y == 8),
+        BinOp::GreaterEqual | BinOp::LessEqual => x == y && (x == 5 || x == 6 || x == 8),
+        BinOp::And | BinOp::Or => x == 7 && y == 7,
+        BinOp::Nop => true,
+    }
+}
+/// an operator applied to two literals of incompatible types
+spec fn lit_clash(e: Expression) -> bool {
+    match e {
+        Expression::BinOp { a, b, op, .. } => lit_head(*a) is Some && lit_head(*b) is Some && !lit_op_ok(op, lit_head(*a)->Some_0, lit_head(*b)->Some_0),
+        Expression::UniOp { a, op, .. } => op is Not && lit_head(*a) is Some && lit_head(*a)->Some_0 != 7,
+        _ => false,
+    }
+}
 /// what type checking an operator expression leaves behind in the constraint store (for every
 /// initial store: so a forgotten or misplaced add_constraint fails the clause). The ids are the
 /// operands' type ids, which the function does not return; they are existentially quantified.
@@ -1751,6 +1779,9 @@ impl TypeChecker {
             r is Ok ==> e_brk(*expression, ctx.inside_loop), //# C05 expression.break_only_inside_a_loop_of_the_same_function
             r is Ok ==> e_pur(old(self).variables@, *expression, ctx.inside_pure), //# C04 expression.pure_functions_stay_pure_at_any_depth
             r is Ok ==> op_recorded(final(self).types@, *expression, r->Ok_0.1), //# C02,C03 expression.operators_record_their_constraint_on_both_operands
+            r is Ok && lit_head(*expression) is Some ==> head(ty_of(final(self).types@, r->Ok_0.1)) == lit_head(*expression)->Some_0, //# C03 expression.a_literal_has_the_type_of_its_kind
+            heads_kept(final(self).types@, final(self).types@), //# - expression.spec.seed_term_of_the_known_types_chain
+            lit_clash(*expression) ==> r is Err, //# C03 expression.operator_on_literals_of_incompatible_types_is_rejected
 //@   endspec
 //@   ghost entry
         hide(wf_forest); hide(ids_closed); hide(TypeChecker::vars_valid);
@@ -1763,6 +1794,16 @@ impl TypeChecker {
 //@   ghost before
 //@| match self.find_type(expr) {
         proof { lemma_e_str_intro(vs, *expression, il, ip); } //# C04,C05 expression.children_obey_purity_and_loop_rules
+        proof { reveal(push_frame); assert(lit_head(*expression) is Some ==> head(ty_of(self.types@, expr)) == lit_head(*expression)->Some_0); }
+//@   endghost
+//@   ghost before
+//@| let boolean = self.push_type(Type::Bool);
+//@| with_ret(a_ret, self.unify(*span, ctx, a, boolean)?)
+                let ghost sn = self.types@; proof { lemma_rep0_props(sn, a.0 as int); }
+//@   endghost
+//@   ghost before
+//@| with_ret(a_ret, self.unify(*span, ctx, a, boolean)?)
+                proof { reveal(push_frame); }
 //@   endghost
 //@   ghost before-loop 1
                         let ghost n1 = self.types@.len();
